@@ -12,13 +12,15 @@ const modulePath = "github.com/TheManticoreProject/Manticore"
 
 // packages whose function bodies may be inlined (symbolically executed) when no contract/intrinsic exists
 var inlineStdlib = map[string]bool{
-	"encoding/binary": true,
-	"math/bits":       true,
-	"unicode/utf16":   true,
-	"unicode/utf8":    false,
-	"bytes":           false,
-	"slices":          true,
-	"errors":          false,
+	"encoding/binary":                true,
+	"crypto/subtle":                  true,
+	"crypto/internal/fips140/subtle": true,
+	"math/bits":                      true,
+	"unicode/utf16":                  true,
+	"unicode/utf8":                   false,
+	"bytes":                          false,
+	"slices":                         true,
+	"errors":                         false,
 }
 
 func (e *Exec) call(st *State, fr *Frame, cc *ssa.CallCommon, in ssa.Instruction, rt types.Type) []callRes {
@@ -92,6 +94,24 @@ func (e *Exec) unknownInvoke(st *State, fr *Frame, cc *ssa.CallCommon, in ssa.In
 	if h := e.W.invokeHook(e, st, fr, cc, in, rt, iv); h != nil {
 		return h
 	}
+	// interface declared outside the module (io.Reader, cipher.BlockMode, hash.Hash, net.Conn ...): abstract call
+	if nt, ok := cc.Value.Type().(*types.Named); ok && nt.Obj().Pkg() != nil && !strings.HasPrefix(nt.Obj().Pkg().Path(), modulePath) {
+		var args []Val
+		for _, a := range cc.Args {
+			args = append(args, e.val(st, fr, a))
+		}
+		key := nt.Obj().Pkg().Path() + "." + nt.Obj().Name() + "." + name
+		if h, ok := invokeIntrinsics[key]; ok {
+			e.UsedIntrinsics[key] = true
+			return h(e, st, fr, args, in, rt)
+		}
+		e.noteAbstract(st, "interface call "+key)
+		e.havocArgs(st, args)
+		if sig, ok := cc.Method.Type().(*types.Signature); ok {
+			return []callRes{{st, e.freshResult(st, sig.Results(), "ret."+name)}}
+		}
+		return []callRes{{st, nil}}
+	}
 	e.bail("interface call on unknown dynamic type: %s", full)
 	return nil
 }
@@ -121,8 +141,12 @@ func (e *Exec) freshOfType(st *State, t types.Type, name string) Val {
 			e.metaAll[s.Obj].Growable = false
 			return s
 		}
-		e.bail("fresh value of slice of non-scalars (%s)", t)
+		return e.freshSliceObj(st, u.Elem(), name)
 	case *types.Pointer:
+		if n, ok := u.Elem().(*types.Named); ok && n.Obj().Pkg() != nil && !strings.HasPrefix(n.Obj().Pkg().Path(), modulePath) {
+			id := e.newObj(st, &OpaqueVal{T: u.Elem(), Name: name}, &ObjMeta{T: u.Elem(), Fresh: true, Name: name})
+			return &PtrVal{Obj: id, T: u.Elem()}
+		}
 		e.bail("fresh value of pointer type %s from abstracted call", t)
 	}
 	return e.symVal(st, t, name, 0)
@@ -154,6 +178,9 @@ func (e *Exec) invokeFn(st *State, fr *Frame, fn *ssa.Function, args []Val, bind
 	name := fn.String()
 	if fn.Origin() != nil {
 		name = fn.Origin().String()
+	}
+	if fn.Synthetic == "package initializer" || (fn.Name() == "init" && fn.Signature.Recv() == nil && fn.Signature.Params().Len() == 0 && e.initRunning != nil && fn.Pkg != e.initRunning) {
+		return []callRes{{st, nil}} // initialisers of imported packages are evaluated lazily, on first access to their globals
 	}
 	if h, ok := intrinsics[name]; ok {
 		e.UsedIntrinsics[name] = true
@@ -202,7 +229,7 @@ func (e *Exec) havocArgs(st *State, args []Val) {
 		case *SliceVal:
 			if x.Obj != 0 {
 				if av := e.sliceBacking(st, x); av != nil && av.Scalar {
-					nav := &ArrayVal{ElemT: av.ElemT, Scalar: true, Elem: av.Elem, C: &ArrBase{Name: e.C.FreshName("ext.arr"), Elem: av.Elem}, Len: av.Len}
+					nav := &ArrayVal{ElemT: av.ElemT, Scalar: true, Elem: av.Elem, C: e.arrBase(e.C.FreshName("ext.arr"), av.ElemT), Len: av.Len}
 					st.Heap[x.Obj] = e.update(st, e.root(st, x.Obj), x.Path, func(Val) Val { return nav })
 				}
 			}
@@ -238,6 +265,25 @@ func packResults(rs []Val) Val {
 		return rs[0]
 	}
 	return TupleVal(rs)
+}
+
+// invokeIntrinsics: models for methods of stdlib interfaces (keyed pkg.Iface.Method; args exclude the receiver).
+var invokeIntrinsics = map[string]intrinsic{
+	// crypto/cipher.BlockMode.CryptBlocks(dst, src): panics unless len(src) is a multiple of the block size
+	// and len(dst) >= len(src). Block size: 16 (AES) or 8 (DES) — we require a multiple of 16 only when the
+	// caller established it; conservatively the obligation asks for a multiple of 8 and dst long enough.
+	"crypto/cipher.BlockMode.CryptBlocks": func(e *Exec, st *State, fr *Frame, args []Val, in ssa.Instruction, rt types.Type) []callRes {
+		dst, src := args[0].(*SliceVal), args[1].(*SliceVal)
+		c := e.C
+		if !e.IntMode {
+			e.oblige(st, fr, in, "conv-panic", c.And(c.Eq(c.BvAnd(src.Len, e.idx(15)), e.idx(0)), e.leIdx(src.Len, dst.Len)))
+		}
+		if st.Dead {
+			return nil
+		}
+		e.havocArgs(st, []Val{dst})
+		return []callRes{{st, nil}}
+	},
 }
 
 // ---- builtins ----
@@ -321,7 +367,7 @@ func (e *Exec) builtin(st *State, fr *Frame, b *ssa.Builtin, args []Val, cc *ssa
 
 func (e *Exec) storeBacking(st *State, s *SliceVal, nav *ArrayVal) {
 	if st.Record != nil {
-		st.Record.Objs[s.Obj] = true
+		st.Record.note(s.Obj, s.Path)
 	}
 	e.frameCheck(st, &PtrVal{Obj: s.Obj, Path: s.Path})
 	st.Heap[s.Obj] = e.update(st, e.root(st, s.Obj), s.Path, func(Val) Val { return nav })
@@ -389,12 +435,11 @@ func (e *Exec) appendImpl(st *State, fr *Frame, in ssa.Instruction, s *SliceVal,
 		if av.Scalar {
 			tC, tOff, tLen = av.C, x.Off, x.Len
 		} else {
-			if !x.Off.IsConst() || !x.Len.IsConst() {
-				e.bail("append of non-scalar slice with symbolic bounds")
-			}
-			o, l := int(x.Off.C.Int64()), int(x.Len.C.Int64())
-			tList = av.List[o : o+l]
 			tLen = x.Len
+			if av.List != nil && x.Off.IsConst() && x.Len.IsConst() {
+				o, l := int(x.Off.C.Int64()), int(x.Len.C.Int64())
+				tList = av.List[o : o+l]
+			}
 		}
 	default:
 		e.bail("append of %T", t)
@@ -407,6 +452,21 @@ func (e *Exec) appendImpl(st *State, fr *Frame, in ssa.Instruction, s *SliceVal,
 	if !isScalarType(elemT) {
 		// list semantics: always a fresh copy (aliasing through append is not modelled)
 		var base []Val
+		symbolic := tList == nil
+		if s.Obj != 0 {
+			if av := e.sliceBacking(st, s); av.List == nil || !s.Off.IsConst() || !s.Len.IsConst() {
+				symbolic = true
+			}
+		}
+		if symbolic {
+			// symbolic list: contents are not tracked, only the length
+			r := e.symList(st, elemT, c.FreshName("appended"))
+			st.assume(c.Eq(r.Len, newLen))
+			st.assume(c.Not(r.Nil))
+			e.metaAll[r.Obj].Param = false
+			e.metaAll[r.Obj].Fresh = true
+			return []callRes{{st, r}}
+		}
 		if s.Obj != 0 {
 			av := e.sliceBacking(st, s)
 			if !s.Off.IsConst() || !s.Len.IsConst() {
@@ -442,7 +502,6 @@ func (e *Exec) appendImpl(st *State, fr *Frame, in ssa.Instruction, s *SliceVal,
 		cont = e.spliceOrStore(cont, s.Len, tC, tOff, tLen)
 		nav := &ArrayVal{ElemT: elemT, Scalar: true, Elem: es, C: cont, Len: newLen}
 		id := e.newObj(st, nav, &ObjMeta{T: types.NewArray(elemT, 0), Fresh: true, Growable: true})
-		e.accountAlloc(st, fr, in, elemT, newLen)
 		return callRes{st, &SliceVal{Obj: id, Off: e.idx(0), Len: newLen, Cap: newLen, Nil: c.False(), ElemT: elemT}}
 	}
 	inplace := func(st *State, growable bool) callRes {
@@ -601,7 +660,7 @@ func (e *Exec) lookup(st *State, fr *Frame, in *ssa.Lookup) []stfr {
 	switch a := x.(type) {
 	case *StringVal:
 		idx := e.toIdx(e.val(st, fr, in.Index).(*Term), in.Index.Type())
-		e.oblige(st, fr, in, "idx", e.ltIdx(idx, a.Len))
+		e.oblige(st, fr, in, "idx", e.inRange(idx, a.Len))
 		if st.Dead {
 			return nil
 		}
